@@ -23,7 +23,8 @@
 // client's source label travels in the header hsend, added with Header.Set as a server's header
 // reader would store it (hvar, hsend default X-Src; any spelling of the same name must do).
 // ext=clientip: utils.NewExtractor("client.ip"); <src> is the peer's IP text and the request's
-// RemoteAddr is net.JoinHostPort(src, port) (port default 1234; 40000+i for the i-th arrival of a burst).
+// RemoteAddr is net.JoinHostPort(src, port) (port default 1234; 40000+i for the i-th arrival of a burst;
+// port=none: RemoteAddr is src itself, without port and brackets).
 // panic-err / panic-abort / panic-rt: the handler panics with an error value, with
 // http.ErrAbortHandler (what httputil.ReverseProxy uses on a mid-body abort), with a runtime error.
 // verbose / log: connlimit's Verbose and Logger options (a counting logger); they must not change
@@ -144,6 +145,9 @@ func (s *h) launch(key, src, amt, port string, fail bool, b *burst) *req {
 	r := httptest.NewRequest(http.MethodGet, "http://h/", nil)
 	if s.clientip {
 		r.RemoteAddr = net.JoinHostPort(src, port)
+		if port == "none" { // the bare address: no port, no brackets
+			r.RemoteAddr = src
+		}
 	}
 	r.Header.Set("X-Key", key)
 	r.Header.Set("X-Src", src)
@@ -252,7 +256,7 @@ func (s *h) Op(f []string) string {
 			if o == "err=1" {
 				fail = true
 			} else if v, ok := hx.KV([]string{o}, "port"); ok {
-				if !s.clientip || strings.Trim(v, "0123456789") != "" {
+				if !s.clientip || (v != "none" && strings.Trim(v, "0123456789") != "") {
 					return "bad-op"
 				}
 				port = v
